@@ -40,7 +40,9 @@ func IncompleteGamma(x, alpha, ln_gamma_alpha float64) float64 {
 	term := 0.0
 	pn := make([]float64, 6)
 
-	if math.Abs(x) < DBL_MIN {
+	// x == 0 (and negative values too small to be told from it): the ratio is 0.
+	// A positive subnormal x is not 0: for a small shape x^alpha is far from 0 there
+	if math.Abs(x) < DBL_MIN && x <= 0 {
 		return 0.0
 	}
 
